@@ -163,3 +163,52 @@ def check(model, rep):
             rep.ob('R14.3', init, 'default %s=%s' % (p, src(d)[:40]), ok, msg or 'does not escape into payload')
     rep.count('mutable constructor defaults examined', n_def)
     rep.floor('R14.1', 'functions in scope', len(seen), 120)
+    handed_rule(model, rep, fx)
+
+
+CLAMP_HOWS = ('callee Arm.thetaProtector writes', 'callee Arm.FK writes', 'callee Arm.FKLink writes', 'callee Arm.FKJoint writes')
+
+
+def handed_rule(model, rep, fx):
+    """R14.4: an array a robot method hands to a ported Modern Robotics function is not altered by that method afterwards - neither
+    directly nor through what the function returned (a solver that returns its start vector unchanged on a path makes every later
+    in-place step of the caller, e.g. the documented in-place angle wrapping, a write to the caller's array).  The may-alias summaries of
+    the callees carry the result -> argument aliases, including through tuple results."""
+    rep.rule('R14.4', 'robot methods never alter (directly or through a result alias) an array parameter they hand to a ported Modern '
+                      'Robotics function, joint clamping excepted')
+    n = 0
+    for mod, cname in ((ARM, 'Arm'), (SPM, 'SP')):
+        ci = model.cls(mod, cname)
+        for fi in ci.methods.values():
+            handed = {}
+            for c in ast.walk(fi.node):
+                if not isinstance(c, ast.Call):
+                    continue
+                r = model.resolve_call(fi, c)
+                if r is None or r[0] != 'func' or r[1].module.name != PORT:
+                    continue
+                for a in list(c.args) + [k.value for k in c.keywords]:
+                    b = a
+                    while isinstance(b, (ast.Attribute, ast.Subscript)) or (isinstance(b, ast.Call) and isinstance(b.func, ast.Attribute)
+                                                                            and b.func.attr in ('reshape', 'ravel', 'squeeze', 'view')):
+                        b = b.func.value if isinstance(b, ast.Call) else b.value
+                    if isinstance(b, ast.Name) and b.id in fi.params and b.id != 'self':
+                        handed.setdefault(b.id, (r[1].qualname, c.lineno))
+            if not handed:
+                continue
+            s = fx.summary(fi)
+            for p, (callee, line) in sorted(handed.items()):
+                n += 1
+                if p in ALLOWED_WRITES.get((mod, fi.qualname), {}):
+                    rep.ob('R14.4', fi, '%s handed to %s' % (p, callee), True, 'documented in-place target: ' + ALLOWED_WRITES[(mod, fi.qualname)][p])
+                    continue
+                sites = [(node, how) for (pp, k), ss in s.writes.items() if pp == p and k != 'meta' for (node, how) in ss
+                         if not how.startswith(CLAMP_HOWS)]
+                if sites:
+                    node, how = sites[0]
+                    rep.ob('R14.4', fi, '%s handed to %s' % (p, callee), False,
+                           'the array `%s` handed to %s (line %d) is altered by the method: %s' % (p, callee, line, how), line=node.lineno)
+                else:
+                    rep.ob('R14.4', fi, '%s handed to %s' % (p, callee), True, 'not written outside joint clamping')
+    rep.count('array parameters handed to ported functions by robot methods', n)
+    rep.floor('R14.4', 'parameters handed to ported functions', n, 8)
